@@ -18,6 +18,7 @@ import types
 
 from mc import bussim, core, ecparse, ecworld, seams
 
+import ebpfcat.ethercat as ecmod
 import ebpfcat.lock as lock_mod
 from ebpfcat.ebpfcat import (
     Device, ParallelEtherCat, SyncGroup, SyncManager)
@@ -45,9 +46,30 @@ class Dev(Device):
         return dict(self.spec)
 
 
+class NoEndpoint:
+    """stands in for the event loop while connect() runs: no socket"""
+
+    async def create_datagram_endpoint(self, factory, **kw):
+        return None, None
+
+
 class Aero(AerotechBase):
     in_size = 8
     out_size = 6
+
+
+class AeroIn0(AerotechBase):
+    """declares that it transfers no input bytes (its PDO is not empty)"""
+    in_size = 0
+    out_size = 6
+
+
+class AeroOut0(AerotechBase):
+    in_size = 8
+    out_size = 0
+
+
+AEROS = {"aero": Aero, "aero-in0": AeroIn0, "aero-out0": AeroOut0}
 
 
 def kinds(ctx):
@@ -62,11 +84,14 @@ def required(seq):
     fin, fout = [], []
     for n, (i, o, rw, f, *aero) in enumerate(seq):
         if aero:
+            cls = AEROS[aero[0]]
             if i:
-                fin.append((n, IN, Aero.in_size))
+                if cls.in_size:
+                    fin.append((n, IN, cls.in_size))
                 dgs.append(("trigger", 1, []))
             if rw and o:
-                dgs.append(("FPWR", Aero.out_size, [(n, OUT, Aero.out_size)]))
+                dgs.append(("FPWR", cls.out_size,
+                            [(n, OUT, cls.out_size)] if cls.out_size else []))
                 dgs.append(("trigger", 1, []))
         elif f:
             if i:
@@ -116,11 +141,29 @@ def run_case(case, res):
                 ParallelEtherCat.get_fmmu_addr, w.ec)
         windows = []
         for g in range(ngroups):
+            if master == "reconnect" and g:
+                # the master connects again (FastEtherCat.run and
+                # ParallelEtherCat.run call connect() on an object that was
+                # connected before; a lost link): groups allocated before
+                # stay alive
+                saved = ecmod.get_event_loop
+                ecmod.get_event_loop = lambda: NoEndpoint()
+                try:
+                    fut = asyncio.ensure_future(w.ec.connect())
+                    w.loop.run_until_idle()
+                    if not fut.done() or fut.exception():
+                        raise core.Internal("connect() did not complete: %r"
+                                            % fut)
+                finally:
+                    ecmod.get_event_loop = saved
+                w.master.sendtask.cancel()
+                w.master.sendtask = asyncio.ensure_future(w.ec.sendloop())
             terms = []
             for n, (i, o, rw, f, *aero) in enumerate(seq):
                 t = w.add_terminal(i if not aero else 100, o if not aero
                                    else 100, use_fmmu=f,
-                                   cls=Aero if aero else ecworld.EBPFTerminal,
+                                   cls=AEROS[aero[0]] if aero
+                                   else ecworld.EBPFTerminal,
                                    station=100 + n + 50 * g)
                 terms.append(t)
             dev = Dev({t: s[2] for t, s in zip(terms, seq)})
@@ -165,18 +208,22 @@ def run_case(case, res):
             for n, (t, s) in enumerate(zip(terms, seq)):
                 i, o, rw, f, *aero = s
                 want = {}
+                empty = set()       # declared regions of size 0
                 if aero:
+                    cls = AEROS[aero[0]]
                     if i:
-                        want[IN] = Aero.in_size
+                        want[IN] = cls.in_size
                     if rw and o:
-                        want[OUT] = Aero.out_size
+                        want[OUT] = cls.out_size
+                    empty = {sm for sm, sz in want.items() if not sz}
+                    want = {sm: sz for sm, sz in want.items() if sz}
                 else:
                     if i:
                         want[IN] = i
                     if rw and o:
                         want[OUT] = o
                 got = sg.pdo_assign.get(t, {})
-                if set(got) != set(want):
+                if set(got) - empty != set(want):
                     bad(sorted(k.name for k in want),
                         sorted(k.name for k in got),
                         "terminal has no / a superfluous region")
@@ -335,6 +382,12 @@ def cases(ctx):
         out.append((((100, 100, rw, True, "aero"),), 1))
         out.append((((7, 7, True, True), (100, 100, rw, True, "aero")), 1))
         out.append((((7, 7, True, False), (100, 100, rw, True, "aero")), 1))
+        for a0 in ("aero-in0", "aero-out0"):
+            out.append((((100, 100, rw, True, a0),), 1))
+            out.append((((100, 100, rw, True, a0), (7, 7, True, True)), 1))
+            out.append((((7, 7, True, True), (100, 100, rw, True, a0)), 1))
+    out.append((((500, 500, True, True, "aero-in0"),
+                 (900, 0, False, True)), 1))
     # several groups on one master
     for seq in itertools.product(ks[::5], repeat=2):
         out.append((seq, 2))
@@ -346,6 +399,9 @@ def cases(ctx):
     for seq in itertools.product(ks[::5], repeat=2):
         for ng in (2, 3, 4) if not ctx.quick else (3,):
             out.append((seq, ng, 0, "fmmulock"))
+    for seq in itertools.product(ks[::5], repeat=2):
+        out.append((seq, 2, 0, "reconnect"))
+    out.append((((7, 7, True, True),), 3, 0, "reconnect"))
     for ng in (2, 3, 4):
         out.append((((700, 700, True, True),), ng, 0, "fmmulock"))
         out.append((((1100, 0, False, True), (0, 300, True, True)), ng, 0,
